@@ -140,7 +140,7 @@ func Harness_C04_nolink() {
 // a vehicle position, in either entity order: two trips, two vehicles, and each
 // pair's links lead to each other.
 func Harness_C04_two_pairs() {
-	kind := hConcretize(vr.Int("vehicle.kind", 1, 3), 1, 3)
+	kind := hConcretize(vr.Int("vehicle.kind", 0, 3), 0, 3) // 0: both vehicles without any descriptor (vehicle positions only)
 	var vds [2]*gtfsrt.VehicleDescriptor
 	var want [2]*VehicleID
 	var tids [2]string
@@ -149,13 +149,15 @@ func Harness_C04_two_pairs() {
 		tids[i] = vr.Str(vr.T("trip", i, ".id"))
 	}
 	vr.Assume(tids[0] != "" && tids[1] != "" && tids[0] != tids[1])
-	vr.Assume(want[0].ID != want[1].ID || want[0].Label != want[1].Label || want[0].LicensePlate != want[1].LicensePlate)
+	if kind != 0 {
+		vr.Assume(want[0].ID != want[1].ID || want[0].Label != want[1].Label || want[0].LicensePlate != want[1].LicensePlate)
+	}
 	var ents []*gtfsrt.FeedEntity
 	for i := 0; i < 2; i++ {
 		id := vr.T("e", i)
 		tid := tids[i]
 		td := &gtfsrt.TripDescriptor{TripId: &tid}
-		if vr.Bool(vr.T("pair", i, ".by_vehicle_position")) {
+		if kind == 0 || vr.Bool(vr.T("pair", i, ".by_vehicle_position")) {
 			ents = append(ents, &gtfsrt.FeedEntity{Id: &id, Vehicle: &gtfsrt.VehiclePosition{Trip: td, Vehicle: vds[i]}})
 		} else {
 			ents = append(ents, &gtfsrt.FeedEntity{Id: &id, TripUpdate: &gtfsrt.TripUpdate{Trip: td, Vehicle: vds[i]}})
@@ -185,6 +187,18 @@ func Harness_C04_two_pairs() {
 			}
 			vr.Assert("C04.pair.vehicle", vr.DeepEq(t.Vehicle.ID, want[i]))
 			vr.Assert("C04.back.vehicle2trip", t.Vehicle.Trip != nil && t.Vehicle.Trip.ID.ID == tids[i])
+			if kind == 0 {
+				// anonymous vehicles: the listed vehicle that points at this trip is the one the trip points at
+				n := 0
+				for v := range r.Vehicles {
+					if r.Vehicles[v].Trip != nil && r.Vehicles[v].Trip.ID.ID == tids[i] {
+						n++
+						vr.Assert("C04.content.vehicle", vr.DeepEq(*t.Vehicle, r.Vehicles[v]))
+					}
+				}
+				vr.Assert("C04.pair.listed", n == 1)
+				continue
+			}
 			at := hFindVehicle(r.Vehicles, want[i])
 			vr.Assert("C04.pair.listed", at >= 0)
 			if at >= 0 {
